@@ -38,7 +38,7 @@ ASSUMPTIONS = [
     "the real wandb service process is replaced by a fake that is strictly more talkative on disk",
 ]
 TIERS = {
-    "quick": {"runs": 1400, "time_cap_s": 100, "chunk": 8, "det_inproc": 3, "det_fresh": 2, "minimise_s": 60, "watchdog_s": 600},
+    "quick": {"runs": 1100, "time_cap_s": 95, "chunk": 8, "det_inproc": 3, "det_fresh": 2, "minimise_s": 60, "watchdog_s": 600},
     "thorough": {"runs": 60000, "time_cap_s": 1500, "chunk": 16, "det_inproc": 6, "det_fresh": 4, "minimise_s": 180, "watchdog_s": 900},
 }
 
@@ -100,6 +100,9 @@ def gen_plan(rng, index, tier):
             p["errno"] = rng.choice(["ENOSPC", "EIO"])
     if p["model_type"] == "single_instance":
         p["data"] = "synthetic"  # the asset has two animals per frame
+    if p.get("rerun") and rng.random() < 0.6:
+        others = [m for m in MODEL_TYPES if m != p["model_type"] and (m != "single_instance")]
+        p["rerun_other_model"] = rng.choice(others)
     return p
 
 
